@@ -3,3 +3,5 @@ import MellonModel.Linalg
 import MellonModel.Kernel
 import MellonModel.Conditional
 import MellonModel.Decomp
+import MellonModel.Rank
+import MellonModel.Params
